@@ -19,6 +19,17 @@ def check(run):
     from .. import glue_modes
     run.attempt("corr:glue_modes.corr", glue_modes.corr, run, quick)   # Lean model of Modes (constructor, layout, dispatch, conj pairing, product terms, copies) vs the real class
     rng = run.rng
+    # ---- correspondence (bitwise): the helper's loop nest as generated from spherical/multiplication.py ----
+    from .. import kern, glue_diff
+    mcases = []
+    for (L1, L2) in ([(0, 0), (1, 0), (1, 1), (2, 1), (2, 3), (3, 3)] if quick else [(a, b) for a in range(0, 5) for b in range(0, 5)] + [(6, 4), (5, 7)]):
+        for (sf, sg) in ([(0, 0), (-1, 2), (2, -2), (1, 1)] if quick else [(a, b) for a in (-2, -1, 0, 1, 3) for b in (-3, 0, 1, 2)]):
+            for Lfg, tl in ((L1 + L2, "full"), (max(L1, L2), "truncated-max"), (max(L1 + L2 - 1, 0), "truncated-1")):
+                for kind in (["random", "special"] if quick else ["random", "special", "single", "nonfinite"]):
+                    fw = glue_diff.rand_weights(rng, (L1 + 1) ** 2, kind)
+                    gw = glue_diff.rand_weights(rng, (L2 + 1) ** 2, "random" if kind == "nonfinite" else kind)
+                    mcases.append((L1, L2, Lfg, sf, sg, fw, gw, f"{tl}|{kind}"))
+    run.attempt("corr:corr_mul", kern.corr_mul, run, mcases)
     Rs = [helpers.random_rotor(rng) for _ in range(3)] + [(1.0, 0.0, 0.0, 0.0), (0.0, 0.6, 0.8, 0.0)]
     combos = [(0, 0, 0, 0), (0, 2, 1, 3), (-1, 2, 2, 2), (2, 3, -2, 4), (1, 1, -3, 3), (-2, 5, 0, 0)] if quick else \
         [(sf, Lf, sg, Lg) for sf in (-4, -2, -1, 0, 1, 3) for sg in (-3, 0, 2, 4) for Lf in (abs(sf), 6, 12) for Lg in (abs(sg), 5)]
